@@ -74,7 +74,8 @@ def run_tlc(module, cfg_text, *, workers=None, simulate=None, depth=None, seed=N
             fh.write(cfg_text)
         if heap is None:      # trace validation is linear and small; model checking gets more
             heap = "3g" if module.startswith("Trace_") else "6g"
-        cmd = ["java", "-XX:+UseParallelGC", "-Xss64m", "-Xmx" + heap] + (java_opts or []) + [
+        cmd = ["java", "-XX:+UseParallelGC", "-Xss64m", "-Xmx" + heap,
+               "-Djava.io.tmpdir=" + tmp] + (java_opts or []) + [
             "-cp", TLC_JAR, "tlc2.TLC", "-workers", str(workers), "-metadir",
             os.path.join(tmp, "meta"), "-noGenerateSpecTE"]
         if coverage:
